@@ -1,25 +1,71 @@
 (* Correspondence interface for C18.  Four engines, one case type:
-     CBucket : op sequence on a real limit.Bucket (Upsert results, IsStale, heap array with index fields)
+     CBucket : op sequence on a real limit.Bucket (Upsert results, IsStale, size and value->priority map; layout-free)
      CStore  : history on a real provider/mem.Alerts with a per-alert-name limit (accept/limited counter, List)
      CSil    : create/edit/expire/GC history on a real silence.Silences with Limits (error code, all silences)
      CSem    : arrival/completion events through the real api limitHandler (status, exceeded counter)
    check_case: the model run on the same ops at the same instants reproduces the recorded observations.
    prop_case : executable form of the property on the model run. *)
+From stdpp Require Import sorting.
 From AM Require Export Base.Prelude Model.Bucket Model.StoreLimit Model.SilenceLimits Model.Semaphore.
 
 (* ---------- engine 1 ---------- *)
+(* The array layout of the heap is not observable behaviour (a different but valid sift sequence, e.g. overwrite
+   the root + heap.Fix instead of Pop + Push, leaves other slots), so the correspondence goes through the
+   ABSTRACTION of the refinement proof (Proofs/BucketProofs.v: upsert_refines): per operation the returned value,
+   the IsStale answer, the size and the finite map value -> priority.  Each step is checked from the abstract
+   state the implementation was observed in: the model bucket is rebuilt from that map with the faithful heap.Push
+   (any valid heap of the same content will do, by the refinement theorem the outcome depends on the content only,
+   except for WHICH of several equal-priority minima is evicted; in that one case the key sets are compared up to
+   that choice: same multiset of priorities, the new key present, every other key kept from before).
+   Heap order and index-map coherence of the REAL array are judged by the harness's direct oracle, and of the
+   model's own run by prop_case. *)
 Inductive bop := BUpsert (v p : Z) | BStale.
-(* observed: result of the call, heap array afterwards as (value, priority, index field) *)
-Definition bobs : Type := bool * list (Z * Z * nat).
+(* observed: result of the call, content afterwards as (value, priority) pairs in any order *)
+Definition bobs : Type := bool * list (Z * Z).
 
 Definition bstep (b : bucket) (now : Z) (o : bop) : bucket * bool :=
   match o with
   | BUpsert v p => upsert b v p now
   | BStale => (b, is_stale b now)
   end.
-Definition bview (b : bucket) : list (Z * Z * nat) := map (fun x => (it_val x, it_prio x, it_idx x)) (b_items b).
 
-Fixpoint brun (b : bucket) (h : list (Z * bop)) : list bobs :=
+(* a valid bucket with the given content *)
+Definition bucket_of (cap : Z) (content : list (Z * Z)) : bucket :=
+  mkBucket (foldl (fun l vp => hpush l (fst vp) (snd vp)) [] content) cap.
+
+Definition sorted_prios (l : list (Z * Z)) : list Z := merge_sort Z.le (map snd l).
+Definition same_map (m : gmap Z Z) (l : list (Z * Z)) : bool :=
+  (size m =? length l)%nat && bool_decide (NoDup (map fst l)) && forallb (fun vp => beq (m !! fst vp) (Some (snd vp))) l.
+
+(* several items share the minimal priority *)
+Definition min_tie (l : list (Z * Z)) : bool :=
+  match sorted_prios l with a :: b :: _ => a =? b | _ => false end.
+
+Definition bcheck1 (cap : Z) (before : list (Z * Z)) (now : Z) (o : bop) (obs : bobs) : bool :=
+  let b := bucket_of cap before in
+  let '(b', x) := bstep b now o in
+  let '(ok, after) := obs in
+  beq x ok &&
+  match o with
+  | BUpsert v p =>
+      if same_map (abs b') after then true
+      else (* eviction among equal-priority minima: equal up to which of them went *)
+        min_tie before && negb (bool_decide (v ∈ map fst before)) && (cap <=? Z.of_nat (length before)) && x &&
+        beq (sorted_prios (entries (b_items b'))) (sorted_prios after) &&
+        bool_decide (NoDup (map fst after)) && bool_decide ((v, p) ∈ after) &&
+        forallb (fun wq => (fst wq =? v) || bool_decide (wq ∈ before)) after
+  | BStale => same_map (abs b') after
+  end.
+
+Fixpoint bcheck (cap : Z) (before : list (Z * Z)) (h : list (Z * bop * bobs)) : bool :=
+  match h with
+  | [] => true
+  | (now, o, obs) :: r => bcheck1 cap before now o obs && bcheck cap (snd obs) r
+  end.
+
+(* the model's own run (faithful array), for prop_case and show_case *)
+Definition bview (b : bucket) : list (Z * Z * nat) := map (fun x => (it_val x, it_prio x, it_idx x)) (b_items b).
+Fixpoint brun (b : bucket) (h : list (Z * bop)) : list (bool * list (Z * Z * nat)) :=
   match h with
   | [] => []
   | (now, o) :: r => let '(b', x) := bstep b now o in (x, bview b') :: brun b' r
@@ -154,7 +200,7 @@ Inductive case :=
 
 Definition check_case (c : case) : bool :=
   match c with
-  | CBucket cap h => beq (brun (new_bucket cap) (map fst h)) (map snd h)
+  | CBucket cap h => bcheck cap [] h
   | CStore N h => srun_check N empty_store h
   | CSil lim ret h => silrun_check lim ret ∅ h
   | CSem c h => semrun_check c sem0 h
@@ -169,7 +215,7 @@ Definition prop_case (c : case) : bool :=
   end.
 
 Inductive shown :=
-| ShBucket (o : list bobs)
+| ShBucket (o : list (bool * list (Z * Z * nat)))
 | ShStore (o : list (bool * nat * list alert * list (string * list (Z * Z))))
 | ShSil (o : list (string * string * list sil))
 | ShSem (o : list verdict * nat).
